@@ -119,6 +119,47 @@ fn fmt_checks(col: &mut TCol, x: &[u8], all_reps: bool) {
         let b = BytesMut::from(x);
         strs.push(("BytesMut", format!("{:?}", b), format!("{:#?}", b), format!("{:x}", b), format!("{:X}", b)));
     }
+    // "always": the caller's width / precision / fill / sign flags must not change what the literal decodes to
+    {
+        let b = Bytes::copy_from_slice(x);
+        let m = BytesMut::from(x);
+        #[derive(Debug)]
+        #[allow(dead_code)]
+        struct Holder {
+            key: Bytes,
+        }
+        let flagged: Vec<(&'static str, String)> = vec![
+            ("{:4?}", format!("{:4?}", b)),
+            ("{:<12?}", format!("{:<12?}", m)),
+            ("{:>3?}", format!("{:>3?}", b)),
+            ("{:*^9?}", format!("{:*^9?}", m)),
+            ("{:.0?}", format!("{:.0?}", b)),
+            ("{:.2?}", format!("{:.2?}", m)),
+            ("{:08.1?}", format!("{:08.1?}", b)),
+            ("{:+?}", format!("{:+?}", m)),
+            ("{:#10.3?}", format!("{:#10.3?}", b)),
+        ];
+        for (spec, s) in flagged {
+            col.evals += 1;
+            *col.per_impl.entry(format!("Debug with flags {}", spec)).or_insert(0) += 1;
+            match parse_byte_string_literal(&s) {
+                Ok(v) if v == x => {}
+                Ok(v) => col.viol("C15", "debug-decodes-to-other-bytes", "Bytes/BytesMut", spec, format!("{:02x?} printed with {} as {} which decodes to {:02x?}", x, spec, s, v), replay.clone()),
+                Err(e) => col.viol("C15", "debug-not-a-byte-string-literal", "Bytes/BytesMut", spec, format!("{:02x?} printed with {} as {}: {}", x, spec, s, e), replay.clone()),
+            }
+        }
+        // a derived Debug hands the caller's spec down to the field
+        let h = format!("{:.0?}", Holder { key: b.clone() });
+        col.evals += 1;
+        if let (Some(a), Some(z)) = (h.find("b\""), h.rfind('"')) {
+            if z > a {
+                match parse_byte_string_literal(&h[a..=z]) {
+                    Ok(v) if v == x => {}
+                    _ => col.viol("C15", "debug-decodes-to-other-bytes", "Bytes field in derived Debug", "{:.0?}", format!("{:02x?} printed as {}", x, h), replay.clone()),
+                }
+            }
+        }
+    }
     for (n, d, da, lx, ux) in strs {
         col.evals += 4;
         for (which, s) in [("Debug", &d), ("Debug-alternate", &da)] {
